@@ -182,8 +182,13 @@ class Engine:
         # genuine fork
         if self.forced is not None and len(self.trail) < len(self.forced):
             kind, d, hh = self.forced[len(self.trail)]
-            if kind != "fork" or hh != _h(expr):
+            # (the syntactic form of a condition depends on z3's term ordering in this process, so only
+            # the kind of the trail entry is compared; forks are semantic and therefore reproducible as
+            # long as no query times out, which is checked below)
+            if kind != "fork":
                 raise HarnessError("prefix replay desynchronised at depth %d" % len(self.trail))
+            if self.stats.unknown_branch:
+                raise HarnessError("solver answered unknown while replaying a work-item prefix")
             self._push(d, False, expr, "fork")
             self.model = None
             self.memo[key] = (d, self.pos, self._epoch_at(self.pos))
@@ -234,7 +239,7 @@ class Engine:
             raise HarnessError("non-deterministic replay at a definition (depth %d)" % self.pos)
         if self.forced is not None and len(self.trail) < len(self.forced):
             kind_f, d, hh = self.forced[len(self.trail)]
-            if kind_f != "def" or hh != _h(expr):
+            if kind_f != "def":
                 raise HarnessError("prefix replay desynchronised at a definition")
         self._push(True, False, expr, "def")
         if self.model is not None and not z3.is_true(self.model.eval(expr, model_completion=True)):
@@ -301,12 +306,15 @@ class Engine:
             except HarnessError:
                 return False
         plain = None
+        small = [z3.And(t <= 64, t >= -64) for t in terms]
         try:
-            if self.hints:
-                self.solver.set("timeout", min(1000, old))
-                if self._check(*extra, *self.hints) == "sat":
+            self.solver.set("timeout", min(1000, old))
+            for cons in ((list(self.hints) + small) if self.hints else None, small):
+                if cons is None:
+                    continue
+                if self._check(*extra, *cons) == "sat":
                     m = self.solver.model()
-                    if exact(m):
+                    if not prefer_dyadic or exact(m):
                         return m
             self.solver.set("timeout", old)
             if self._check(*extra) == "sat":
@@ -316,7 +324,6 @@ class Engine:
             else:
                 return None
             self.solver.set("timeout", min(300, old))
-            small = [z3.And(t <= 64, t >= -64) for t in terms]
             for k, more in ((0, small), (3, small), (10, [])):
                 cons = [z3.IsInt(t * (2 ** k)) for t in terms if t.sort() == z3.RealSort()]
                 for hints in ((self.hints, []) if self.hints else ([],)):
@@ -425,7 +432,9 @@ class Engine:
                 self.stats.infeasible_runs += 1
             except Cut:
                 self.stats.cuts += 1
-                cuts.append([(k, d, _h(e)) for d, _p, e, k in self.trail])
+                if self.stats.unknown_branch:
+                    raise HarnessError("solver answered unknown while enumerating work-item prefixes")
+                cuts.append([(k, d, "") for d, _p, e, k in self.trail])
             except StopCase:
                 complete = False
                 break
